@@ -11,9 +11,18 @@
 (*       taken next (equal priorities: any of them - unspecified);         *)
 (*     - a sender is dropped for the rest of the block once one of its     *)
 (*       transactions fails verification or execution;                     *)
-(*     - selection stops at the first candidate that does not fit into the *)
-(*       remaining size (if that candidate would also fail, the statement  *)
-(*       does not say which check comes first: both results admissible).   *)
+(*     - the payload never exceeds the size limit.  When the best          *)
+(*       candidate does not fit into the remaining size the statement does *)
+(*       not say what happens: the generator may stop (what the code does  *)
+(*       today) or leave that sender out and go on with the others - both  *)
+(*       admissible; if that candidate would also fail, the statement does *)
+(*       not say which check comes first: both results admissible.         *)
+(*     - outcomes: ok / vf, vp, xf (verification invalid, verification     *)
+(*       pending, execution invalid) / xe = executed with result Fail (the *)
+(*       transaction STAYS in the block with its events, like ok) / ve, xr *)
+(*       = the application call itself returns an error during             *)
+(*       verification / execution (the transaction fails: sender dropped). *)
+(*     - pools have any number of senders (enumeration: 3, drawn: up to 6).*)
 (*   TLC enumerates the pools (SelInit) and prints every case with the     *)
 (*   admissible payloads for the limits 1..MaxLimit.                       *)
 (*                                                                         *)
@@ -25,6 +34,12 @@
 (*                      handed to consensus; crash = the process dies      *)
 (*                      between the two and is restarted                   *)
 (*     Recv(v)          a block of another validator extends the chain     *)
+(*     RecvChg(v, k)    the same, and the application announces the        *)
+(*                      validator set ParamChoices[k] in it (other weights *)
+(*                      and a permuted generator list from the next height *)
+(*                      on): the generator must take its slots, thresholds *)
+(*                      and validatorsHash from the parameters of the      *)
+(*                      height it generates                                *)
 (*     Switch(k, seq)   fork choice moves the node to a BETTER chain:      *)
 (*                      k blocks are removed, the blocks seq of other      *)
 (*                      validators are applied (possibly a SHORTER chain   *)
@@ -48,10 +63,11 @@ EXTENDS Node
 
 CONSTANTS Own,           \* validators whose keys the generator under test holds
           MaxRecv,       \* longest block sequence applied by one Switch
-          MaxSwitch, MaxCrash, MaxRestart,
+          MaxSwitch, MaxCrash, MaxGRestart,
           MhgRule, PersistFirst,
           DumpPick,      \* which residue class of script keys is dumped (seeded by the driver)
           SelRanks, SelMaxTx, SelMaxLimit,
+          SelOutcomes,   \* part (a): outcomes used by the enumeration (drawn pools may use all of AllOutcomes)
           SelGiven       \* part (a): <<>> = enumerate all pools of at most SelMaxTx transactions; otherwise the sequence of
                          \* pools to evaluate (the driver draws larger pools, up to 3 senders x 3 transactions, from VERIF_SEED)
 
@@ -67,49 +83,54 @@ nodeRest == <<temp, evlog, recvKnown>>
 allvars == <<vars, gvars>>
 
 (* ============================== part (a) ================================ *)
-Outcomes == {"ok", "vf", "vp", "xf"} \* ok / verification fails / verification answers "pending" (nonce gap) / execution fails
+\* ok / verification fails / verification answers "pending" (nonce gap) / execution answers Invalid /
+\* xe: execution answers Fail (included, with its events) / ve, xr: the verification / execution call returns an error
+AllOutcomes == {"ok", "vf", "vp", "xf", "xe", "ve", "xr"}
+Good(o) == o \in {"ok", "xe"}    \* the transaction goes into the block
+Outcomes == SelOutcomes
 TxKinds == [r : 1..SelRanks, z : 1..2, o : Outcomes]
-Senders == 1..3
+SendersOf(pool) == 1..Len(pool)
 
 \* pools: three senders with n1 >= n2 >= n3 transactions (nonce order = sequence order), at most SelMaxTx in total;
 \* enumerated by SelSeeds / SelSucc below
 RECURSIVE Sel(_, _, _, _, _, _)
 \* pos[s]: index of sender s's next transaction; dropped: senders with a failed transaction; used: payload size
 Sel(pool, pos, dropped, used, acc, limit) ==
-  LET heads == {s \in Senders : s \notin dropped /\ pos[s] <= Len(pool[s])}
+  LET heads == {s \in SendersOf(pool) : s \notin dropped /\ pos[s] <= Len(pool[s])}
       Rank(s) == pool[s][pos[s]].r
       top == {s \in heads : \A t \in heads : Rank(s) >= Rank(t)}
       Take(s) ==
         LET tx == pool[s][pos[s]]
             fits == used + tx.z <= limit
             drop == Sel(pool, pos, dropped \cup {s}, used, acc, limit)
-        IN IF tx.o = "ok"
+        IN IF Good(tx.o)
            THEN (IF fits THEN Sel(pool, [pos EXCEPT ![s] = @ + 1], dropped, used + tx.z, Append(acc, <<s, pos[s]>>), limit)
-                 ELSE {acc})
+                 ELSE {acc} \cup drop)      \* does not fit: stop, or leave this sender out and go on (statement silent)
            ELSE (IF fits THEN drop ELSE {acc} \cup drop)
   IN IF heads = {} THEN {acc} ELSE UNION {Take(s) : s \in top}
 
-Select(pool, limit) == Sel(pool, [s \in Senders |-> 1], {}, 0, <<>>, limit)
+Select(pool, limit) == Sel(pool, [s \in SendersOf(pool) |-> 1], {}, 0, <<>>, limit)
 
 \* what the statement fixes, as a predicate over a payload (used to cross-check Select)
 PayloadSize(pool, p) == LET RECURSIVE Sz(_) Sz(i) == IF i = 0 THEN 0 ELSE pool[p[i][1]][p[i][2]].z + Sz(i - 1) IN Sz(Len(p))
 SelSound(pool, limit) ==
   \A p \in Select(pool, limit) :
     /\ PayloadSize(pool, p) <= limit
-    /\ \A i \in 1..Len(p) : pool[p[i][1]][p[i][2]].o = "ok"
+    /\ \A i \in 1..Len(p) : Good(pool[p[i][1]][p[i][2]].o)
     \* per sender: exactly a prefix of its transactions, in nonce order, none after a failed one
-    /\ \A s \in Senders :
+    /\ \A s \in SendersOf(pool) :
          LET mine == SelectSeq(p, LAMBDA e : e[1] = s) IN
          /\ \A i \in 1..Len(mine) : mine[i][2] = i
-         /\ \A i \in 1..Len(mine) : \A j \in 1..i : pool[s][j].o = "ok"
+         /\ \A i \in 1..Len(mine) : \A j \in 1..i : Good(pool[s][j].o)
     \* priority: when a transaction is taken no other sender's next transaction has a higher priority
     /\ \A i \in 1..Len(p) :
-         \A s \in Senders \ {p[i][1]} :
+         \A s \in SendersOf(pool) \ {p[i][1]} :
            LET cnt == Cardinality({j \in 1..(i - 1) : p[j][1] = s})
-               \* s still has a next transaction, nothing of s has failed and that next transaction is a valid one:
-               \* then it is a candidate at this moment and must not have a higher priority than the one taken
-               alive == cnt < Len(pool[s]) /\ \A j \in 1..(cnt + 1) : pool[s][j].o = "ok"
-           IN alive => pool[s][cnt + 1].r <= pool[p[i][1]][p[i][2]].r
+               \* s still has a next transaction, nothing of s has failed, that next transaction is a valid one and it
+               \* would fit: then it is a candidate at this moment and must not have a higher priority than the one taken
+               alive == cnt < Len(pool[s]) /\ \A j \in 1..(cnt + 1) : Good(pool[s][j].o)
+               wouldFit == PayloadSize(pool, SubSeq(p, 1, i - 1)) + pool[s][cnt + 1].z <= limit
+           IN (alive /\ wouldFit) => pool[s][cnt + 1].r <= pool[p[i][1]][p[i][2]].r
 
 SelCase(pool) == [pool |-> pool, exp |-> [l \in 1..SelMaxLimit |-> SetToSeq(Select(pool, l))]]
 
@@ -197,6 +218,21 @@ Recv(v) ==
        /\ script' = Append(script, [r.steps[1] EXCEPT !.op = "recv"])
   /\ UNCHANGED <<nodeRest, ginfo, signed, lost, ever, abandoned, sel>>
 
+\* a block of another validator in which the application announces the validator set ParamChoices[k] (in force from
+\* the next height on: other weights / thresholds, another generator list)
+RecvChg(v, k) ==
+  /\ v \in Others /\ Len(chain) < MaxLen /\ Len(script) < MaxSteps
+  /\ k \in 1..Len(ParamChoices) /\ NChg < MaxChg
+  /\ CanGenerate(V, Tip.h + 1, v)
+  /\ LET c == [OtherCand(chain, vstack, v) EXCEPT !.chg = k]
+         v2 == AfterBlock(c)
+         ch2 == Append(chain, Entry(c))
+         vs2 == Append(vstack, v2)
+         f2 == Max2(fin, v2.mhpc)
+     IN /\ chain' = ch2 /\ vstack' = vs2 /\ fin' = f2
+        /\ script' = Append(script, [Step(c, TRUE, ch2, vs2, f2, {}, <<>>, <<>>) EXCEPT !.op = "recv"])
+  /\ UNCHANGED <<nodeRest, ginfo, signed, lost, ever, abandoned, sel>>
+
 RECURSIVE SeqsUpTo(_, _)
 SeqsUpTo(S, n) == IF n = 0 THEN {<<>>} ELSE LET sm == SeqsUpTo(S, n - 1) IN sm \cup {Append(q, x) : q \in {y \in sm : Len(y) = n - 1}, x \in S}
 
@@ -216,7 +252,7 @@ Switch(k, seq) ==
   /\ UNCHANGED <<nodeRest, ginfo, signed, lost, ever, sel>>
 
 GRestart ==
-  /\ Len(script) < MaxSteps /\ Len(script) > 0 /\ NRestarts < MaxRestart
+  /\ Len(script) < MaxSteps /\ Len(script) > 0 /\ NRestarts < MaxGRestart
   /\ script' = Append(script, [op |-> "restart", obs |-> Obs(chain, vstack, fin, {}, <<>>)])
   /\ UNCHANGED <<chain, vstack, fin, nodeRest, ginfo, signed, lost, ever, abandoned, sel>>
 
@@ -228,6 +264,7 @@ GInit ==
 GNext ==
   \/ \E g \in Own, crash \in BOOLEAN : Forge(g, crash)
   \/ \E v \in Others : Recv(v)
+  \/ \E v \in Others, k \in 1..Len(ParamChoices) : RecvChg(v, k)
   \/ \E k \in 1..MaxLen, seq \in SeqsUpTo(Others, MaxRecv) : Switch(k, seq)
   \/ GRestart
 
@@ -254,7 +291,7 @@ NForge == Cardinality({i \in 1..Len(script) : script[i].op = "forge"})
 \*     DumpPick from VERIF_SEED, so the sample does not depend on worker scheduling).
 StepCode(s) ==
   CASE s.op = "forge"  -> 3 + 7 * s.h + 13 * s.mhp + 31 * s.mhg + 17 * s.gen + (IF s.crash THEN 5 ELSE 0)
-    [] s.op = "recv"   -> 11 + 19 * s.gen + 23 * s.h
+    [] s.op = "recv"   -> 11 + 19 * s.gen + 23 * s.h + 59 * s.chg
     [] s.op = "switch" -> 29 + 37 * s.del + 41 * Len(s.blocks) + 43 * s.blocks[1].gen + 53 * s.blocks[Len(s.blocks)].gen
     [] OTHER           -> 47
 RECURSIVE ScriptSum(_)
@@ -263,9 +300,19 @@ Critical ==
   \E i \in 1..Len(script) :
      /\ script[i].op = "switch" /\ script[i].shorter
      /\ \E g \in Own : Cardinality({j \in (i + 1)..Len(script) : script[j].op = "forge" /\ script[j].gen = g}) >= 2
+\* a Forge strictly below the largest height its generator ever generated (always printed: the harness puts the unmodified
+\* forge() there and lets the restarted generator sign the next header)
+LowForge == \E i \in 1..Len(script) : script[i].op = "forge" /\ script[i].h < script[i].mhg
+\* a validator-set change followed by a Forge (flag for the driver's sample; only configurations with ParamChoices have them)
+ChgThenForge ==
+  \E i \in 1..Len(script) : /\ script[i].op = "recv" /\ script[i].chg # 0
+                             /\ \E j \in (i + 1)..Len(script) : script[j].op = "forge"
+\* next[g]: the maxHeightGenerated the NEXT header of g must carry (what a generator restarted after the script reports):
+\* the harness appends a restart and one more forge of the last generator to every script ("header only")
 GDumpInv == (/\ DumpEvery > 0 /\ Len(script) > 0 /\ script[Len(script)].op = "forge"
-             /\ (Critical \/ ScriptSum(Len(script)) % DumpEvery = DumpPick % DumpEvery))
-              => PrintT(<<"DUMP", ToJson([script |-> script, critical |-> Critical])>>)
+             /\ (Critical \/ LowForge \/ ScriptSum(Len(script)) % DumpEvery = DumpPick % DumpEvery))
+              => PrintT(<<"DUMP", ToJson([script |-> script, critical |-> Critical, chgforge |-> ChgThenForge,
+                                          next |-> [v \in Validators |-> IF v \in Own THEN NextMhg(v) ELSE 0]])>>)
 
 (* ------------------------------ part (a) as a TLC run --------------------- *)
 \* Two levels so that TLC's workers share the enumeration: the initial states are seeds (st = 0: the pools of sender 1
